@@ -26,10 +26,10 @@ def plan(tier, seed):
 
 def thresholds(tier):
   t = {"designs": 120, "elaborations": 1500, "nets_compared": 10000, "designs_with_10_orders": 100, "member_value_comparisons": 5000,
-       "adjacency_comparisons": 1000, "sibling_chain_designs": 80, "interface_connections_in_both_orientations": 80, "constant_template_designs": 80, "holey_list_designs": 80}
+       "adjacency_comparisons": 1000, "sibling_chain_designs": 80, "interface_connections_in_both_orientations": 80, "constant_template_designs": 80, "holey_list_designs": 80, "partly_driven_ancestor_designs": 200}
   if tier == "thorough":
     t = {k: v * 12 for k, v in t.items()}
-    t["sibling_chain_designs"] = 600; t["interface_connections_in_both_orientations"] = 600; t["constant_template_designs"] = 600; t["holey_list_designs"] = 600      # 60 per shard
+    t["sibling_chain_designs"] = 600; t["interface_connections_in_both_orientations"] = 600; t["constant_template_designs"] = 600; t["holey_list_designs"] = 600; t["partly_driven_ancestor_designs"] = 2000      # 60 per shard
   return t
 
 
@@ -397,6 +397,77 @@ def run_alias_list(sh, case):
     G.unload(mod)
 
 
+ANC_SRC = """
+from pymtl3 import *
+@bitstruct
+class AInner:
+  a: Bits4
+  b: Bits4
+@bitstruct
+class AMid:
+  k: Bits4
+  inner: AInner
+@bitstruct
+class AOuter:
+  x: Bits8
+  mid: AMid
+class ATop2(Component):
+  def construct(s, perm, flips, blk):
+    s.in_ = InPort(4); s.a = Wire(4); s.w = Wire(AOuter)
+    s.o_inner = OutPort(AInner); s.o_mid = OutPort(AMid); s.o_x = OutPort(8); s.o_w = OutPort(AOuter); s.o_xs = OutPort(6)
+    @update
+    def up_a():
+      s.a @= s.in_ + 3
+    stmts = [(s.a, s.w.mid.inner.a), (s.a, s.w.x[0:4]), (s.w.mid.inner.b, 0x9), (s.w.x[4:8], 0x5), (s.w.mid.k, 0x6),
+             (s.w, s.o_w), (s.w.mid.inner, s.o_inner), (s.w.mid, s.o_mid), (s.w.x, s.o_x), (s.w.x[1:7], s.o_xs)]
+    if blk:
+      # ... the deep parts are written by an update block instead of nets
+      stmts = stmts[2:]
+      @update
+      def up_deep():
+        s.w.mid.inner.a @= s.a
+        s.w.x[0:4] @= s.a
+    for i in perm:
+      if i < len(stmts):
+        x, y = stmts[i]
+        if flips[i]: x, y = y, x
+        connect(x, y)
+"""
+
+
+def run_partial_ancestor(sh, case):
+  """a struct wire whose DEEP parts (a field of a field of a field, a slice of a field) are driven one by one - by nets or by an
+  update block - while other nets read every level in between (the nested struct, the struct around it, the whole field, an
+  overlapping slice, the whole wire): statements in random order with random sides, any pass group; every reader carries the value
+  its level has once the deep parts are written"""
+  rng = sh.rng("ancestor", case)
+  mod = G.load_source(ANC_SRC, "c08anc")
+  try:
+    blk = rng.random() < 0.4
+    perm = list(range(10)); rng.shuffle(perm); flips = [rng.random() < 0.5 for _ in range(10)]
+    mode = rng.choice(["default", "simple", "unroll", "heutopo", "mamba"])
+    top = mod.ATop2(perm, flips, blk)
+    try:
+      M.apply_mode(top, mode, rng)
+    except Exception as e:
+      sh.violation("legal-design-with-partly-driven-ancestors-could-not-be-built", {"mode": mode, "error": f"{type(e).__name__}: {str(e)[:300]}", "perm": perm, "flips": flips, "deep_parts_written_by_a_block": blk}, case=("ancestor", case)); return
+    for _ in range(3):
+      v = rng.getrandbits(4); top.in_ @= v; top.sim_eval_combinational()
+      a = (v + 3) & 15
+      want = {"o_inner": (a << 4) | 9, "o_mid": (6 << 8) | (a << 4) | 9, "o_x": (5 << 4) | a, "o_xs": (((5 << 4) | a) >> 1) & 63,
+              "o_w": (((5 << 4) | a) << 12) | (6 << 8) | (a << 4) | 9}
+      got = {k: int(getattr(top, k).to_bits()) if hasattr(getattr(top, k), "to_bits") else int(getattr(top, k)) for k in want}
+      sh.count("partly_driven_ancestor_value_comparisons", len(want))
+      if got != want:
+        bad = {k: (hex(got[k]), hex(want[k])) for k in want if got[k] != want[k]}
+        sh.violation("net-member-differs-from-writer-in-simulation", {"mode": mode, "input": v, "readers(got, expected)": bad, "perm": perm, "flips": flips,
+                     "deep_parts_written_by_a_block": blk, "design_source": ANC_SRC}, case=("ancestor", case)); return
+      top.sim_tick()
+    sh.count("partly_driven_ancestor_designs")
+  finally:
+    G.unload(mod)
+
+
 IFC_SWAP_SRC = """
 from pymtl3 import *
 def mkf(P, n):
@@ -521,6 +592,7 @@ def run_shard(sh):
     run_ifc_swap(sh, sh.idx * 1000 + case)
     run_holey(sh, sh.idx * 1000 + case)
     run_alias_list(sh, sh.idx * 1000 + case)
+    for k2 in range(3): run_partial_ancestor(sh, sh.idx * 1000 + case * 3 + k2)
   for case in range(sh.params["designs"]):
     if sh.only is not None and str(case) != str(sh.only).strip('"'):
       continue
